@@ -750,6 +750,7 @@ def run_conic_offaxis(case, seed, R):
 QST = {'c': 3, 'ab': [[2, 3], [3, 1]]}
 QR = np.array([1.5, 2.5, 5.0, 7.5, 10.0])
 QNORM = 12.0
+QN = QST['c'] + sum(a + b for a, b in QST['ab'])
 
 
 def run_q2d_and_der(case, seed, R):
@@ -764,7 +765,8 @@ def run_q2d_and_der(case, seed, R):
     ams = [[v * scale_q for v in a] for a in ams]
     bms = [[v * scale_q for v in b] for b in bms]
     Rg, Tg = np.meshgrid(QR, CT, indexing='ij')
-    cell = f'{kcls(k)}:{ocls(dx, dy)}:' + ('base-only' if kk == -2 else 'q')
+    # the structure QST holds one length-1 list (its coefficient is the last one); the dense vector includes it
+    cell = f'{kcls(k)}:{ocls(dx, dy)}:' + ('base-only' if kk == -2 else ('q:len=1' if kk in (-1, QN - 1) else 'q:len>1'))
     sig = f'Q2d_and_der:{cell}'
     bad = []
 
@@ -838,7 +840,7 @@ def plan(tier, seed):
     OFF = [[0, 0], [5, 0], [0, 5], [-3, 0], [0, -7.5]] if q else [[0, 0], [5, 0], [0, 5], [-3, 0], [0, -7.5], [12, 0], [0, 0.25]]
     cr_cases = [{'c': c, 'k': k} for c in CS for k in KS]
     co_cases = [{'c': c, 'k': k, 'dx': dx, 'dy': dy} for c in CS for k in KS for dx, dy in OFF]
-    nq = QST['c'] + sum(a + b for a, b in QST['ab'])
+    nq = QN
     qd_cases = [{'c': c, 'k': k, 'dx': dx, 'dy': dy, 'coef': kk} for c in CS for k in KS for dx, dy in OFF for kk in [-2] + list(range(nq)) + [-1]]
     pts = 'points: end-points, 0 and rationals inside the domain'
     return [
